@@ -376,13 +376,26 @@ func init() {
 		"(*sync.Pool).Get": func(r *Run, c *frame, fn *ssa.Function, a []Value) Value {
 			p := a[0].(*Value)
 			st := (*p).(Struct)
+			// a pooled item is handed out again whenever there is one (the reuse case is the one that can
+			// expose stale state; the real Pool may also drop items, which behaves like a fresh New())
+			if items := r.pools[p]; len(items) > 0 {
+				it := items[len(items)-1]
+				r.pools[p] = items[:len(items)-1]
+				return it
+			}
 			newF := st[len(st)-1]
 			if isNilFunc(newF) {
 				return Iface{}
 			}
 			return r.call(c, token.NoPos, newF, nil)
 		},
-		"(*sync.Pool).Put": noop,
+		"(*sync.Pool).Put": func(r *Run, c *frame, fn *ssa.Function, a []Value) Value {
+			p := a[0].(*Value)
+			if iv, ok := a[1].(Iface); ok && iv.T != nil {
+				r.pools[p] = append(r.pools[p], iv)
+			}
+			return nil
+		},
 
 		// ---- atomic
 		"sync/atomic.AddUint32": func(r *Run, c *frame, fn *ssa.Function, a []Value) Value { return r.atomicAdd(a) },
